@@ -460,5 +460,33 @@ Proof.
   (eexists; split; [reflexivity|]); intros S T spur v a1 a2 _ HS HT Hv H1 H2;
   (destruct T as [w sg| | |]; try discriminate); cbn [ok arg_ty] in Hv, H1, H2; assert (Hw : int_width w = true) by exact HT;
   wrap_exec HI.
-  all: idtac "left". Show.
-Abort.
+Qed.
+
+Lemma wrapped_bool_agrees P I : agrees0 P KBool I -> agrees P KBool (wrapped_bool I).
+Proof.
+  intros HI o vol f Hf; destruct o; cbn in Hf; try discriminate; injection Hf as <-; destruct vol;
+  (eexists; split; [reflexivity|]); intros S T spur v a1 a2 _ HS HT Hv H1 H2;
+  (destruct T; try discriminate); cbn in Hv, H1, H2; bools; subst; wrap_exec HI.
+Qed.
+
+Lemma wrapped_flag_agrees P I : agrees0 P KFlag I -> agrees P KFlag (wrapped_flag I).
+Proof.
+  intros HI o vol f Hf; destruct o; cbn in Hf; try discriminate; injection Hf as <-; destruct vol;
+  (eexists; split; [reflexivity|]); intros S T spur v a1 a2 _ HS HT Hv H1 H2;
+  (destruct T; try discriminate); cbn in Hv, H1, H2; bools; subst; wrap_exec HI.
+Qed.
+
+Lemma wrapped_ptr_agrees P I : agrees0 P KPtr I -> agrees P KPtr (wrapped_ptr I).
+Proof.
+  intros HI o vol f Hf; destruct o; cbn in Hf; try discriminate; injection Hf as <-; destruct vol;
+  (eexists; split; [reflexivity|]); intros S T spur v a1 a2 _ HS HT Hv H1 H2;
+  (destruct T as [| |sz|]; try discriminate); cbn [ok arg_ty] in Hv, H1, H2; unfold ptrdiff_t in H1; cbn [ok] in H1;
+  wrap_exec HI.
+Qed.
+
+Lemma wrapped_flt_agrees P I : agrees0 P KFlt I -> agrees P KFlt (wrapped_flt I).
+Proof.
+  intros HI o vol f Hf; destruct o; cbn in Hf; try discriminate; injection Hf as <-; destruct vol;
+  (eexists; split; [reflexivity|]); intros S T spur v a1 a2 _ HS HT Hv H1 H2;
+  (destruct T; try discriminate); wrap_exec HI.
+Qed.
